@@ -196,8 +196,10 @@ def coq_build(prop_file, timeout=1500):
         for a in axioms:
             if a not in ALLOWED_AXIOMS:
                 res["problems"].append("theorem depends on non-allow-listed axiom: " + a)
-        n_pa = len(re.findall(r"^\s*Print Assumptions", strip_comments(open(vfile).read()), re.M))
-        if n_pa < len(thms):
+        ptxt = strip_comments(open(vfile).read())
+        n_pa = len(re.findall(r"^\s*Print Assumptions", ptxt, re.M))
+        n_thm = len(re.findall(r"^\s*Theorem\s", ptxt, re.M))
+        if n_pa < n_thm:
             res["problems"].append("property theorem without Print Assumptions")
     return res
 
@@ -491,3 +493,35 @@ def rng(seed, salt):
 
 def hexs(b):
     return bytes(b).hex() if len(b) else "-"
+
+
+def run_pair(driver, model, lines, arith="release"):
+    return run_impl(driver, lines), run_model(model, lines, arith)
+
+
+def comparable(oi, om):
+    """The model declares some outputs opaque (std's IPv6 text form, lossy UTF-8 conversion)."""
+    return "OPAQUE" not in om
+
+
+def diff_stats(rep, cases, impl, mod, prop, what_corr, lossy=lambda meta: False):
+    """Compare implementation and model line by line; returns (n_diff, first_diff)."""
+    n_diff, first = 0, None
+    for (kind, line, meta), oi, om in zip(cases, impl, mod):
+        if not comparable(oi, om):
+            continue
+        if lossy(meta):
+            continue
+        if canon(oi) != canon(om):
+            n_diff += 1
+            if first is None:
+                first = dict(kind=kind, line=line, meta=meta, impl=oi, model=om)
+    return n_diff, first
+
+
+def standard_setup(pid, props_file=None):
+    """coq build + model + driver; returns (coq, broken, model, driver, buildlog)"""
+    coq = coq_build(props_file or pid)
+    model = ensure_model_run()
+    driver, blog = ensure_driver("release")
+    return coq, model, driver, blog
